@@ -185,6 +185,10 @@ def nontrivial_stats(files):
                         types[tg] = types.get(tg, 0) + 1
                         if int(m.group(2)) > 0:
                             nz = True
+                    elif t[:2] in ("c:", "b:", "t:") and not t.endswith(":-"):
+                        nz = True          # a non-empty string / byte / bit-list argument of a constructor
+                    elif (t.startswith("u") and ":" in t) or (t.isdigit() and int(t) > 0 and op in ("zeros", "ones", "repeat", "with_capacity")):
+                        nz = True
                     key.append(t)
                 if nz:
                     distinct.add(hashlib.blake2b(" ".join(key).encode(), digest_size=8).digest())
@@ -326,7 +330,7 @@ def write_evidence(prop, tier, seed, lean, total, distinct, ops, types, samples,
             "theorems": lean.get("axioms", {}),
             "proved_scope": extra.get("proved", ""), "not_proved": extra.get("not_proved", ""),
             "evaluations": total, "distinct_nontrivial": distinct,
-            "rule": "cases are generated by the Rust harness (exhaustive small scopes + boundary lattice + random fill + histories continuing from the implementation's own state, dev and release profiles); a case is non-trivial when at least one vector operand has length > 0; distinct = distinct (operation, operands) after removing the profile flag",
+            "rule": "cases are generated by the Rust harness (exhaustive small scopes + boundary lattice + random fill + histories continuing from the implementation's own state, dev and release profiles); a case is non-trivial when at least one vector operand has length > 0 (for constructors: a non-empty string/byte/bit argument, an integer argument, or a non-zero length); distinct = distinct (operation, operands) after removing the profile flag",
             "samples": samples or ["(no cases)"],
             "traces_validated_against_impl": total,
             "raw_storage_identical_to_model": (totals or {}).get("raw_identical", 0),
